@@ -1,0 +1,61 @@
+//go:build verif
+
+package gff
+
+// Bounded stand-in for C03 (never panics ... for every byte string): the stack the reader needs must not grow with
+// the number of consecutive metadata lines. The reader handles a ##gff-version/##source-version/##date/##Type line
+// by calling Read again from inside commentMetaline, one frame pair per line; a stack overflow is fatal and cannot
+// be recovered, so the probe runs in a child process (this test binary re-executed) with the stack limit lowered
+// from the default 1 GB to 16 MB, where 40000 such lines overflow it (about 860000 lines, an 8 MB header, overflow
+// the default limit). Recorded finding on the unchanged tree.
+
+import (
+	"bytes"
+	"fmt"
+	"io"
+	"os"
+	"os/exec"
+	"runtime/debug"
+	"strings"
+	"testing"
+)
+
+const verifDepthLines = 40000
+
+func TestVerifBounded_C03_GFFStackDepth(t *testing.T) {
+	if os.Getenv("VERIF_GFF_DEPTH_CHILD") == "1" {
+		debug.SetMaxStack(16 << 20)
+		r := NewReader(strings.NewReader(strings.Repeat("##Type DNA\n", verifDepthLines) + "chr1\tsrc\tgene\t1\t10\t.\t+\t.\n"))
+		n := 0
+		for {
+			f, err := r.Read()
+			if err == io.EOF {
+				break
+			}
+			if err != nil || f == nil {
+				fmt.Printf("CHILD unexpected %v %v\n", f, err)
+				os.Exit(3)
+			}
+			n++
+		}
+		fmt.Printf("CHILD records=%d\n", n)
+		return
+	}
+	cmd := exec.Command(os.Args[0], "-test.run", "^TestVerifBounded_C03_GFFStackDepth$")
+	cmd.Env = append(os.Environ(), "VERIF_GFF_DEPTH_CHILD=1")
+	var buf bytes.Buffer
+	cmd.Stdout, cmd.Stderr = &buf, &buf
+	err := cmd.Run()
+	out := buf.String()
+	switch {
+	case err == nil && strings.Contains(out, "CHILD records=1"):
+	case strings.Contains(out, "stack overflow") || strings.Contains(out, "goroutine stack exceeds"):
+		fmt.Printf("FINDING id=metadata-recursion cases=1 example=%q\n", fmt.Sprintf("%d consecutive \"##Type DNA\" lines followed by one feature, stack limit 16 MB: fatal stack overflow in Read -> commentMetaline -> Read", verifDepthLines))
+	default:
+		if len(out) > 2000 {
+			out = out[:2000]
+		}
+		t.Fatalf("child: %v\n%s", err, out)
+	}
+	fmt.Printf("BOUNDED name=C03.gff-stack-depth cases=1 nontrivial=1 exhaustive=false domain=%q\n", fmt.Sprintf("one file of %d consecutive metadata lines and one feature, read in a child process with a 16 MB stack limit", verifDepthLines))
+}
